@@ -17,7 +17,7 @@ RULE = ("Histories of get_scores requests (fields from a menu of single/multiple
         "sequences of length <=3 over a 12-request menu on 3 fixed datasets; random: histories of up to 12 (quick) / "
         "30 (thorough) steps; (near-collisions) pairs of requests that differ in exactly one component (ensemble member, "
         "stored or ensemble-derived threshold / quantile level, field order, field, input, slice, axis) issued A, B, A, B on "
-        "one object. (repeat) the same command line run twice in one process prints identical output. "
+        "one object; (metric-history) sequences of metric computations on one object against fresh objects. (repeat) the same command line run twice in one process prints identical output. "
         "Non-trivial: the history contains a 3D multi-field request followed by a request on a subset of those fields, "
         "or the same request twice with another in between; distinct by hash of (dataset, history).")
 ASSUMPTIONS = [
@@ -69,7 +69,8 @@ def near_strategy(tier):
     slice, axis) issued as A, B, A on one object: what a cache key that omits that component would confuse."""
     @st.composite
     def s(draw):
-        spec = draw(gen.dataset(max_inputs=3, min_inputs=1, clim="maybe", flavor=draw(st.sampled_from(["full", "full", "prob", "ens", "det"])),
+        spec = draw(gen.dataset(max_inputs=3, min_inputs=1, clim=draw(st.sampled_from([False, True, "maybe"])),
+                                flavor=draw(st.sampled_from(["full", "full", "prob", "ens", "det"])),
                                 core_max=3, extra_max=1, allow_drop=False, max_members=3, allow_all_missing=False, own_obs=True,
                                 per_input_layout=draw(st.booleans())))
         allin = spec["inputs"] + ([spec["clim"]] if spec.get("clim") else [])
@@ -91,6 +92,24 @@ def near_strategy(tier):
             kinds += ["member", "member", "member"]
         if mem >= 1:
             kinds += ["derived-threshold", "derived-quantile"]
+        # a whole-array request for [obs|fcst, X] followed by a request for X alone (X any other field)
+        others = []
+        if th:
+            others.append(("thr", th[0]))
+        if qs:
+            others.append(("q", qs[-1]))
+        if mem >= 1:
+            others += [("ens", mem - 1), ("thr", 0.625)]
+        if all(d.get("pit") is not None for d in allin) and not spec.get("clim"):
+            others.append(("pit",))
+        onames = None
+        for d in allin:
+            s_ = set((d.get("other") or {}).keys())
+            onames = s_ if onames is None else onames & s_
+        for nm in sorted(onames or []):
+            others.append(("other", nm))
+        if others:
+            kinds += ["subset"] * 4
         kind = draw(st.sampled_from(kinds))
         with_obs = draw(st.booleans())
         pre = [("obs",)] if with_obs else []
@@ -113,6 +132,11 @@ def near_strategy(tier):
         elif kind == "derived-quantile":
             q = draw(st.lists(st.sampled_from([0.3, 0.7, 0.45]), min_size=2, max_size=2, unique=True))
             menu, h = [[("q", q[0])], [("q", q[1])]], [[0, i1, a1, k1], [1, i1, a1, k1]]
+        elif kind == "subset":
+            X = draw(st.sampled_from(others))
+            first = draw(st.sampled_from([("obs",), ("fcst",)]))
+            big = [first, X] if draw(st.booleans()) else [X, first]
+            menu, h = [big, [X]], [[0, i1, "all", 0], [1, i1, a1, k1]]
         elif kind == "order":
             menu, h = [[("obs",), ("fcst",)], [("fcst",), ("obs",)]], [[0, i1, a1, k1], [1, i1, a1, k1]]
         elif kind == "field":
@@ -140,6 +164,74 @@ def run_near(case, ctx):
     if case.get("menu"):
         case["menu"] = [[tuple(f) for f in F] for F in case["menu"]]
     return run_history(case, ctx)
+
+
+# ---- metric computations as requests ----------------------------------------------------------
+METRIC_POOL = ["bs", "bsrel", "bsres", "bss", "ign0", "spherical", "marginalratio", "bsunc", "ets", "hit", "mae", "corr", "quantilescore", "pit"]
+
+
+def metric_strategy(tier):
+    """A sequence of metric computations (what -m does) on one Data object; each must give what it gives on a fresh
+    object, whatever was computed before (e.g. two Brier-type scores of the same within-type event)."""
+    from .. import mrun
+
+    @st.composite
+    def s(draw):
+        spec = draw(gen.dataset(max_inputs=2, clim=False, flavor=draw(st.sampled_from(["prob", "prob", "full"])), core_max=3, extra_max=1,
+                                allow_drop=False, allow_obsless=False, max_members=2, allow_all_missing=False, per_input_layout=False))
+        th = sorted(spec["inputs"][0].get("thresholds") or [])
+        qs = sorted(spec["inputs"][0].get("quantiles") or [])
+        b = draw(st.sampled_from(["within", "within=", "=within", "=within=", "above", "below="]))
+        if b in model.WITHIN_TYPES and len(th) < 2:
+            b = "above"
+        T = th[:2] if b in model.WITHIN_TYPES else th[:1]
+        names = draw(st.lists(st.sampled_from(METRIC_POOL), min_size=2, max_size=4))
+        return {"spec": spec, "metrics": names, "bin_type": b, "thresholds": T, "quantiles": qs[:1],
+                "axis": draw(st.sampled_from(["no", "leadtime", "location", "time"]))}
+    return s()
+
+
+def check_metrics(case, ctx):
+    import numpy as np
+    from .. import mat, mrun
+    if "metrics" not in case:
+        return run_near(case, ctx)
+    spec = case["spec"]
+    ds = model.DS(spec)
+    if ds.empty:
+        return
+    data = mat.make_data(spec)
+    sub = dict(case)
+    done = []
+    for step, name in enumerate(case["metrics"]):
+        kind = mrun.kind_of(name)
+        kw = {}
+        if kind in ("pthr", "thr"):
+            if not case["thresholds"]:
+                continue
+            kw = {"thresholds": case["thresholds"], "bin_type": case["bin_type"]}
+        elif kind == "q1":
+            if not case["quantiles"]:
+                continue
+            kw = {"thresholds": case["quantiles"]}
+        elif kind == "pit" and spec["inputs"][0].get("pit") is None:
+            continue
+        try:
+            got = mrun.scores(data, name, case["axis"], **kw)
+            fresh = mrun.scores(mat.make_data(spec), name, case["axis"], **kw)
+        except SystemExit:
+            continue
+        ctx.evals += 1
+        ctx.label("metric-step/" + name)
+        if done and case["bin_type"] in model.WITHIN_TYPES:
+            ctx.label("metric-history/within-type-after-another-metric")
+            ctx.nt(("metric-history", case["metrics"], case["bin_type"], case["thresholds"], ds.times, [d["fcst"] for d in spec["inputs"]]))
+        if not cmpx.arrays_equal(got, fresh):
+            ctx.fail("C18/fresh/metric", dict(sub, metrics=case["metrics"][:step + 1]),
+                     "-m %s (-b %s -r %r) computed after %r on the same object gives %r, on a fresh object %r"
+                     % (name, case["bin_type"], case["thresholds"], done, np.asarray(got).ravel()[:6].tolist(), np.asarray(fresh).ravel()[:6].tolist()))
+            return
+        done.append(name)
 
 
 def resolve(spec, ds, menu, r):
@@ -356,6 +448,7 @@ def campaigns(tier):
         Custom("stateful-machine", run_stateful, run_history, quick=320, thorough=6000, budget_quick=40, budget_thorough=900),
         Hyp("history", history_strategy, run_history, quick=1600, thorough=30000, budget_quick=50, budget_thorough=1200),
         Hyp("near-collisions", near_strategy, run_near, quick=960, thorough=20000, budget_quick=40, budget_thorough=900),
+        Hyp("metric-history", metric_strategy, check_metrics, quick=640, thorough=12000, budget_quick=40, budget_thorough=900),
         Hyp("history-pit-x0x1", pitx_strategy, run_history, quick=320, thorough=6000, budget_quick=40, budget_thorough=600),
         Hyp("repeat", repeat_strategy, check_repeat, quick=320, thorough=8000, budget_quick=50, budget_thorough=900),
     ]
